@@ -2,6 +2,7 @@ package padding
 
 import (
 	"crypto/cipher"
+	"errors"
 	"io"
 )
 
@@ -14,17 +15,22 @@ func P7BlockDecrypt(decrypter cipher.BlockMode, in io.Reader, out io.Writer) err
 	bufOut := make([]byte, 1024)
 	p7Out := NewPKCS7PaddingWriter(out, decrypter.BlockSize())
 	for {
-		n, err := in.Read(bufIn)
-		if err != nil && err != io.EOF {
+		// 输入流可能返回任意长度(包括0字节)，读满缓冲区或直到流结束
+		n, err := io.ReadFull(in, bufIn)
+		if err != nil && err != io.EOF && err != io.ErrUnexpectedEOF {
 			return err
 		}
-		if n == 0 {
-			break
+		if n%decrypter.BlockSize() != 0 {
+			return errors.New("密文长度不是分组长度的整数倍")
 		}
-		decrypter.CryptBlocks(bufOut, bufIn[:n])
-		_, err = p7Out.Write(bufOut[:n])
+		if n > 0 {
+			decrypter.CryptBlocks(bufOut, bufIn[:n])
+			if _, werr := p7Out.Write(bufOut[:n]); werr != nil {
+				return werr
+			}
+		}
 		if err != nil {
-			return err
+			break
 		}
 	}
 	return p7Out.Final()
@@ -39,17 +45,19 @@ func P7BlockEnc(encrypter cipher.BlockMode, in io.Reader, out io.Writer) error {
 	bufOut := make([]byte, 1024)
 	p7In := NewPKCS7PaddingReader(in, encrypter.BlockSize())
 	for {
-		n, err := p7In.Read(bufIn)
-		if err != nil && err != io.EOF {
+		// 填充后的总长度是分组长度的整数倍；读满缓冲区或直到流结束
+		n, err := io.ReadFull(p7In, bufIn)
+		if err != nil && err != io.EOF && err != io.ErrUnexpectedEOF {
 			return err
 		}
-		if n == 0 {
-			break
+		if n > 0 {
+			encrypter.CryptBlocks(bufOut, bufIn[:n])
+			if _, werr := out.Write(bufOut[:n]); werr != nil {
+				return werr
+			}
 		}
-		encrypter.CryptBlocks(bufOut, bufIn[:n])
-		_, err = out.Write(bufOut[:n])
 		if err != nil {
-			return err
+			break
 		}
 	}
 	return nil
